@@ -308,9 +308,18 @@ def check_b(ck, repo):
         ydef = [xt(x_) for _, x_, _ in guarded_values(repo, ptr, ast.Name(id=Y, ctx=ast.Load()), l)]
         okcopy = bool(ydef) and all(t in (f"{y}.copy().ravel()", f"{y}.ravel().copy()", f"numpy.array({y}).ravel()", f"{y}.flatten()") for t in ydef)
         it_ok = ex.text(l.iter, ptr, l) in (want(repo, f"range(len({Y}))", ptr, l), want(repo, f"range({Y}.shape[0])", ptr, l))
+        # a length taken before the loop (n = len(yp)) is the length of what yp was bound to
+        it_ok = it_ok or ex.text(l.iter, ptr, l) in {f"range(len({d_}))" for d_ in ydef} | {f"range({d_}.shape[0])" for d_ in ydef}
         E = f"{Y}[{iv}]"
         P = "self.permutation_"
-        bp = block_paths(ptr, l.body)
+        # locals bound once to an attribute of self before the loop (perm = self.permutation_)
+        env0 = {}
+        for s0 in own_nodes(ptr.node):
+            if isinstance(s0, ast.Assign) and len(s0.targets) == 1 and isinstance(s0.targets[0], ast.Name) and isinstance(s0.value, ast.Attribute) and isinstance(s0.value.value, ast.Name) and s0.value.value.id == "self" and s0.lineno < l.lineno:
+                nm0 = s0.targets[0].id
+                if sum(1 for z in ast.walk(ptr.node) if isinstance(z, ast.Name) and z.id == nm0 and isinstance(z.ctx, ast.Store)) == 1:
+                    env0[nm0] = s0.value
+        bp = block_paths(ptr, l.body, env0) if env0 else block_paths(ptr, l.body)
         kinds = {}
         for p in bp:
             facts = dict(p.conds)
@@ -458,7 +467,19 @@ def check_b(ck, repo):
                                 keys = ex.text(l.iter, pfit, l)
                             if keys in (f"list({R}.keys())", f"list({R})", f"tuple({R})", f"sorted({R})"):
                                 perm_src = s_.value.value.id
+            if perm_src is None and isinstance(v, ast.Name) and v.id == R:
+                # for u, rank in list(R.items()): R[u] = shuffled[rank]
+                for l in [l for l in own_nodes(pfit.node) if isinstance(l, ast.For) and isinstance(l.target, ast.Tuple) and len(l.target.elts) == 2 and all(isinstance(e, ast.Name) for e in l.target.elts)]:
+                    u, rk = [e.id for e in l.target.elts]
+                    for s_ in l.body:
+                        if isinstance(s_, ast.Assign) and _t(s_.targets[0]) == f"{R}[{u}]" and isinstance(s_.value, ast.Subscript) and _t(s_.value.slice) == rk and isinstance(s_.value.value, ast.Name) and len(l.body) == 1:
+                            with ex.lenient():
+                                keys = ex.text(l.iter, pfit, l)
+                            if keys in (f"list({R}.items())", f"tuple({R}.items())", f"sorted({R}.items())"):
+                                perm_src = s_.value.value.id
         okl = False
+        if perm_src is None:
+            ck.unknown("C13.b", pfit, f"permutation_ = {{u: shuffled[{R}[u]]}}", f"the way the numbering is composed with the random permutation is not one of the spellings this rule reads (permutation_ = {pv[:1]})")
         if perm_src:
             if isinstance(perm_src, str):
                 alts = [xt(x_) for _, x_, _ in guarded_values(repo, pfit, ast.Name(id=perm_src, ctx=ast.Load()), [r for r in own_nodes(pfit.node) if isinstance(r, ast.Return)][-1])]
@@ -469,7 +490,8 @@ def check_b(ck, repo):
             if not okl:
                 # one draw from a generator chosen in branches
                 okl = all(a.endswith(f".permutation({A})") for a in alts) and bool(alts)
-        ck.verdict(perm_src is not None and okl, "C13.b", pfit, f"permutation_ = {{u: shuffled[{R}[u]]}}, shuffled = permutation(arange(n))", "permutation_ is a bijection of the distinct targets onto 0..n-1", "permutation_ is no longer built as a bijection onto 0..n-1: the numbering is not composed with a permutation of arange(n)")
+        if perm_src is not None:
+          ck.verdict(perm_src is not None and okl, "C13.b", pfit, f"permutation_ = {{u: shuffled[{R}[u]]}}, shuffled = permutation(arange(n))", "permutation_ is a bijection of the distinct targets onto 0..n-1", "permutation_ is no longer built as a bijection onto 0..n-1: the numbering is not composed with a permutation of arange(n)")
 
 
 ORDER_WRAPPERS = ("numpy.sort(", "sorted(", "numpy.unique(", "numpy.array(sorted(", "numpy.asarray(sorted(")
